@@ -182,6 +182,9 @@ def run(chk):
         for f in fs:
             ok = any(callee_is(c, comp) for c in f.calls())
             chk.check(ok, 'O3', f.name, '%s is defined through %s (so both agree by construction)' % (op, comp), f.loc())
+    chk.rule('R4', 'summarising observers (all/any/none/count/to_ulong/to_string) agree with a reference bit vector', 12)
+    from . import c12_bits
+    c12_bits.run(chk, prog)
     if eng.unsupported:
         chk.notes.append('constructs evaluated as opaque: %s' % sorted(set(eng.unsupported))[:10])
     if eng.notes:
